@@ -411,8 +411,10 @@ func (w *world) Run(t *rt.Tape, trace bool) *core.Result {
 	core.BeginRun(t)
 	var failure *core.Failure
 	var smp sample
-	rr := rt.Run(rt.Config{Trace: trace}, t, func() {
-		if t.Choose(rt.SGen, 3) == 0 {
+	rr := rt.Run(rt.Config{Trace: trace, NoProgress: core.NoProgressDefault}, t, func() {
+		if t.Choose(rt.SGen, 6) == 0 {
+			failure = w.concurrent(t, res, &smp)
+		} else if t.Choose(rt.SGen, 3) == 0 {
 			failure = w.roundTrip(t, res, &smp)
 		} else {
 			failure = w.faults(t, res, &smp)
@@ -425,6 +427,9 @@ func (w *world) Run(t *rt.Tape, trace bool) *core.Result {
 	if len(rr.Crashed) > 0 {
 		res.Fail = &core.Failure{Clause: "panic", Detail: core.CrashDetail(rr)}
 		return res
+	}
+	if core.Stuck(rr) && failure == nil {
+		failure = &core.Failure{Clause: "parse-hangs", Detail: fmt.Sprintf("overlapping parses did not all return (%s): %v", rr.Outcome, rr.Blocked)}
 	}
 	res.Fail = failure
 	return res
@@ -507,6 +512,192 @@ func (w *world) roundTrip(t *rt.Tape, res *core.Result, smp *sample) *core.Failu
 	again, err := marshal(got, format)
 	if err != nil || !bytes.Equal(again, data) {
 		return &core.Failure{Clause: "rewrite-differs", Detail: fmt.Sprintf("writing the parsed circuit again gives different bytes (%d vs %d, err=%v)", len(again), len(data), err)}
+	}
+	return nil
+}
+
+// concurrent: one process reads several circuit files at the same time (a server loading
+// circuits on demand, a tool converting a directory with a worker per file). Every reader's Read
+// is a scheduling point, so the parses overlap in every tape-chosen way, and whatever the parsers
+// share (a pooled scratch, a cache) is shared. Each parse is judged by the property alone: an
+// undamaged file parses back to its circuit, damaged bytes give an error or a well-formed circuit.
+// Before the overlapping phase every file is parsed once on its own (which also leaves the
+// process in the state of "has parsed files before").
+func (w *world) concurrent(t *rt.Tape, res *core.Result, smp *sample) *core.Failure {
+	type job struct {
+		format  int
+		base    *circuit.Circuit
+		data    []byte
+		damage  string
+		rmode   int
+		k       int
+		pr      parseResult
+		done    bool
+		written []byte
+	}
+	n := 2 + t.Choose(rt.SGen, 3)
+	jobs := make([]*job, n)
+	smp.Mode, smp.Format = "concurrent-parses", "mixed"
+	sameFormat := t.Choose(rt.SGen, 2)
+	f0 := t.Choose(rt.SGen, 2)
+	var shared *circuit.Circuit
+	for i := range jobs {
+		j := &job{format: f0}
+		if sameFormat == 0 {
+			j.format = t.Choose(rt.SGen, 2)
+		}
+		switch {
+		case shared != nil && t.Choose(rt.SGen, 3) == 0:
+			j.base = shared // the same file read twice at once
+		case t.Choose(rt.SGen, 2) == 0:
+			j.base = gen.Circuit(t, gen.CircuitOpts{MaxGates: 12, MaxIn: 6, MaxOutW: 4})
+		default:
+			j.base = gen.Circuit(t, gen.CircuitOpts{MaxGates: 40})
+		}
+		shared = j.base
+		data, err := marshal(j.base, j.format)
+		if err != nil {
+			return &core.Failure{Clause: "marshal-error", Detail: err.Error()}
+		}
+		rt.LogBytes('f', data)
+		j.data = data
+		if t.Choose(rt.SFault, 2) == 0 && len(data) > 16 {
+			m := append([]byte(nil), data...)
+			switch t.Choose(rt.SFault, 4) {
+			case 0:
+				bit := t.Choose(rt.SFault, len(m)*8)
+				m[bit/8] ^= 1 << (bit % 8)
+				j.damage = fmt.Sprintf("flip bit %d", bit)
+			case 1:
+				cut := t.Choose(rt.SFault, len(m))
+				m = m[:cut]
+				j.damage = fmt.Sprintf("truncate to %d", cut)
+			default: // a wire number of a gate record replaced by another field of the record
+				if j.format == 0 {
+					span := min(len(m)-13, 13*j.base.NumGates+1)
+					a := len(m) - 13 - t.Choose(rt.SFault, max(1, span))
+					d := []int{4, 8, -4, -8}[t.Choose(rt.SFault, 4)]
+					if a >= 0 && a+d >= 0 && a+d+4 <= len(m) && a+4 <= len(m) {
+						copy(m[a+d:a+d+4], data[a:a+4])
+					}
+					j.damage = fmt.Sprintf("copy the 4 bytes at %d over those at %d", a, a+d)
+				} else {
+					lines := strings.Split(string(m), "\n")
+					li := t.Choose(rt.SFault, len(lines))
+					f := strings.Fields(lines[li])
+					if len(f) >= 2 {
+						from, to := t.Choose(rt.SFault, len(f)), t.Choose(rt.SFault, len(f))
+						f[to] = f[from]
+						lines[li] = strings.Join(f, " ")
+					}
+					m = []byte(strings.Join(lines, "\n"))
+					j.damage = fmt.Sprintf("line %d: copy a field over another field", li)
+				}
+			}
+			if !declaredSizesOK(j.format, m) || bytes.Equal(m, data) {
+				j.damage = ""
+			} else {
+				j.data = m
+				rt.LogBytes('f', m)
+				res.Faults["concurrent.damaged-file"]++
+			}
+		}
+		j.rmode = t.Choose(rt.SGen, 4)
+		j.k = []int{1, 2, 3, 7, 13, 100, 4096}[t.Choose(rt.SGen, 7)]
+		jobs[i] = j
+		smp.Faults = append(smp.Faults, fmt.Sprintf("job %d: %s %d bytes (%s) damage=%q reader=%d/%d", i, []string{"mpclc", "bristol"}[j.format], len(j.data), gen.Describe(j.base), j.damage, j.rmode, j.k))
+	}
+	parse := func(j *job, yield bool) parseResult {
+		var pr parseResult
+		rd := simdisk.NewReader(j.data, j.rmode, j.k)
+		rd.Yield = yield
+		func() {
+			defer func() {
+				if r := recover(); r != nil {
+					if _, big := r.(rt.AllocTooLarge); big {
+						pr.allocNo = true
+					} else {
+						pr.panicV = r
+						pr.stack = string(debug.Stack())
+					}
+				}
+				pr.eofs = rd.EOFs
+			}()
+			if j.format == 0 {
+				pr.circ, pr.err = circuit.ParseMPCLC(rd)
+			} else {
+				pr.circ, pr.err = circuit.ParseBristol(rd)
+			}
+		}()
+		return pr
+	}
+	verdict := func(i int, j *job, pr parseResult, phase string) *core.Failure {
+		where := fmt.Sprintf("%s, job %d of %d (%s file of %d bytes, %s, damage: %q)", phase, i, n, []string{"mpclc", "bristol"}[j.format], len(j.data), gen.Describe(j.base), j.damage)
+		switch {
+		case pr.eofs > 1000:
+			return &core.Failure{Clause: "parse-hangs", Detail: where + ": the parser kept calling Read after EOF"}
+		case pr.panicV != nil:
+			return &core.Failure{Clause: "panic", Detail: fmt.Sprintf("%s: panic: %v\n%s", where, pr.panicV, pr.stack)}
+		case pr.allocNo:
+			if j.damage == "" {
+				return &core.Failure{Clause: "roundtrip-parse-error", Detail: where + ": parsing a valid file tried a giant allocation"}
+			}
+			res.Reach["allocation refused (not a verdict)"]++
+		case pr.err != nil:
+			if j.damage == "" {
+				return &core.Failure{Clause: "roundtrip-parse-error", Detail: fmt.Sprintf("%s: a file written by Marshal does not parse back: %v", where, pr.err)}
+			}
+			res.Reach["concurrent.rejected-with-error"]++
+		default:
+			if bad := wellFormed(pr.circ); bad != "" {
+				return &core.Failure{Clause: "accepted-malformed", Detail: fmt.Sprintf("%s: the parser returned a circuit without error, but %s", where, bad)}
+			}
+			if j.damage == "" {
+				c := j.base
+				if pr.circ.NumGates != c.NumGates || pr.circ.NumWires != c.NumWires || !gatesEqual(pr.circ.Gates, c.Gates) {
+					return &core.Failure{Clause: "roundtrip-differs", Detail: where + ": gates or counts differ after the round trip"}
+				}
+				names := j.format == 0
+				if a, b := sigString(pr.circ.Inputs, names)+"->"+sigString(pr.circ.Outputs, names), sigString(c.Inputs, names)+"->"+sigString(c.Outputs, names); a != b {
+					return &core.Failure{Clause: "roundtrip-differs", Detail: fmt.Sprintf("%s: I/O signature differs after the round trip:\n got %s\nwant %s", where, a, b)}
+				}
+				res.Reach["concurrent.valid-file-parsed-back"]++
+			} else {
+				res.Reach["concurrent.damaged-accepted-well-formed"]++
+			}
+		}
+		return nil
+	}
+	// every file once on its own
+	for i, j := range jobs {
+		if f := verdict(i, j, parse(j, false), "alone"); f != nil {
+			return f
+		}
+	}
+	// all of them at the same time
+	finished := rt.NewChan[int](n)
+	for i, j := range jobs {
+		i, j := i, j
+		rt.Go(fmt.Sprintf("parse%d", i), func() {
+			j.pr = parse(j, true)
+			if j.damage == "" && j.pr.circ != nil && j.pr.panicV == nil {
+				j.written, _ = marshal(j.pr.circ, j.format)
+			}
+			j.done = true
+			finished.Send(i)
+		})
+	}
+	for range jobs {
+		finished.Recv()
+	}
+	res.Reach["concurrent.cases"]++
+	for i, j := range jobs {
+		if f := verdict(i, j, j.pr, "overlapping"); f != nil {
+			return f
+		}
+		if j.damage == "" && !bytes.Equal(j.written, j.data) {
+			return &core.Failure{Clause: "rewrite-differs", Detail: fmt.Sprintf("overlapping, job %d: writing the parsed circuit again gives different bytes (%d vs %d)", i, len(j.written), len(j.data))}
+		}
 	}
 	return nil
 }
